@@ -842,5 +842,5 @@ MANIFEST = {
              "of all command classes, tag registry agreement, verification results guarding success, equal counter advance on both sides, every section parsed, signed range "
              "agreement. Each clause is a necessary condition; values (MACs, ciphertext) are not computed.",
     "note": "Trusted: struct semantics, the evaluators in sa/engines. Not decided: ROM acceptance at value level, wrong-KEK behaviour beyond the must-check structure.",
-    "technique": "static analysis: writer/reader struct symmetry, route dataflow, must-check guard analysis, symbolic counter sums, bit provenance, export/parse round trip of every SB2 command class and of the image header interpreted on model objects (E19), constructor argument vs header field routes of parse, FILL word value model, Counter object model (shared with C09)",
+    "technique": "static analysis: writer/reader struct symmetry, route dataflow, must-check guard analysis, symbolic counter sums, bit provenance, export/parse round trip of every SB2 command class and of the image header interpreted on model objects (E19), constructor argument vs header field routes of parse, FILL word value model, Counter object model (shared with C09), end-to-end BootSectionV2 export/parse model (keystream cipher, Counter class stepped into: counter follows file position, tamper refused), timestamp model with datetime as a number",
 }
